@@ -257,6 +257,27 @@ def step (s : St) (line : String) : IO St := do
         match (groups.zip tr).find? (fun (g, r) => !(irMatches c.codec (parseIR g) r)) with
         | some (g, r) => s.fail s!"flt: insert({v}) on {showR c.codec r0}: after a failed request the set is {g.take 50}, model {showR c.codec r}"
         | none => pure ((s.bump "op:flt").bump s!"flt:requests:{tr.length}:{layoutTag c r0}")
+  | "flx" :: i :: nv :: rest =>
+    -- failure states of an extend (insert loop on `*self`)
+    let (pre, ds, ir) := splitDR rest
+    let xs := toks2nats (pre.take (N nv))
+    let n := (pre.drop (N nv)).headD "0"
+    let r0 := s.get (N i)
+    match extendT c (c.W == 64) uRng FUEL r0 xs (s.rs (toks2nats ds)) with
+    | .error _ => s.fail s!"flx: model error on {showR c.codec r0}"
+    | .ok ((_, tr), d) =>
+      let okd := (s.after d).2
+      let groups := (ir.foldl (fun (acc : List (List String)) t =>
+        if t == "|" then [] :: acc else match acc with | g :: r => (g ++ [t]) :: r | [] => [[t]]) [[]]).reverse
+      let groups := groups.filter (fun g => !g.isEmpty)
+      if !okd then s.fail s!"flx: model consumed fewer draws than the implementation ({showR c.codec r0})"
+      else if tr.length != N n then
+        s.fail s!"flx: extend({xs}) on {showR c.codec r0}: model requests {tr.length} zeroed blocks, implementation {n}"
+      else if groups.length != tr.length then s.fail "flx: malformed line"
+      else
+        match (groups.zip tr).find? (fun (g, r) => !(irMatches c.codec (parseIR g) r)) with
+        | some (g, r) => s.fail s!"flx: extend({xs}) on {showR c.codec r0}: after a failed request the set is {g.take 50}, model {showR c.codec r}"
+        | none => pure ((s.bump "op:flx").bump s!"flx:requests:{tr.length}")
   | "rem" :: i :: v :: ret :: rest =>
     let (_, ds, ir) := splitDR rest
     s.runRet "rem" (N i) (remove c uRng FUEL (s.get (N i)) (N v)) ret (toks2nats ds) ir
